@@ -1050,6 +1050,7 @@ func (g *docGen) body(host string) string {
 // forceLang overrides the script of the generated words (see DocumentInLanguage); -1: as drawn.
 // Generation is single-threaded per process (plans are generated by one goroutine).
 var forceLang = -1
+var forceBodyLang = -1
 
 // Document generates one page from a seed.
 func Document(seed uint64) GenDoc {
@@ -1092,6 +1093,9 @@ func Document(seed uint64) GenDoc {
 	}
 	g.w(">\n")
 	g.head(host)
+	if forceBodyLang >= 0 {
+		g.lang = forceBodyLang
+	}
 	url := g.body(host)
 	g.w("</html>\n")
 	if url == "" && r.P(2, 3) {
